@@ -14,7 +14,7 @@ FORMS5 = FORMS4 + ["as"]
 INT_TYPES = {
     "u8": (0, 2**8 - 1), "i8": (-2**7, 2**7 - 1), "u16": (0, 2**16 - 1), "i16": (-2**15, 2**15 - 1),
     "u32": (0, 2**32 - 1), "i32": (-2**31, 2**31 - 1), "u64": (0, 2**64 - 1), "i64": (-2**63, 2**63 - 1),
-    "i128": (-MAX, MAX),
+    "i128": (-MAX - 1, MAX),
 }
 
 
@@ -426,6 +426,16 @@ class G:
             yield f"heven s2d {self.hx(s)}"
         for _ in range(n):
             k = r.randrange(11)
+            if k == 9 and r.random() < 0.3:
+                # exponent next to isize::MAX, isize::MAX/10, isize::MAX/100 (the saturation limit) with 0..25 fractional digits
+                base = r.choice([2 ** 63 - 1, (2 ** 63 - 1) // 10, (2 ** 63 - 1) // 100, 2 ** 63, 2 ** 64])
+                e = base + r.randrange(-12, 13)
+                fd = r.randrange(0, 26)
+                s = r.choice(["", "-", "+"]) + r.choice(["0", "1", "12", "0"]) + ("." + "0" * r.randrange(0, fd + 1) + self.digits(1) if fd else "")
+                s = s[: s.find(".") + 1 + fd] if "." in s else s
+                s += r.choice("eE") + r.choice(["-", "-", "+", ""]) + str(e)
+                yield f"heven {r.choice(['parse', 's2d'])} {self.hx(s)}"
+                continue
             if k == 10:
                 # a long digit run (the 8-byte SWAR window applies) with one byte replaced by a neighbour of '0'..'9' in ASCII
                 # ('/' and ':' ';' '<' '=' '>' '?'), or by a byte that differs from a digit in one bit
@@ -495,6 +505,15 @@ class G:
                 elif k == 7:  # scaling the int overflows
                     i = max(INT_TYPES[ty][0], min(INT_TYPES[ty][1], r.choice([1, -1]) * 10 ** r.randrange(18, 39)))
                     p = r.randrange(1, 19)
+                elif k == 8:  # scaling the int overflows and wraps (mod 2^128) exactly onto the coefficient
+                    ty = "i128"
+                    for _ in range(20):
+                        p = r.randrange(1, 19)
+                        i = r.choice([1, -1]) * r.choice([2 ** r.randrange(100, 127) + r.randrange(0, 3), r.randrange(MAX // 10 ** p + 1, MAX)])
+                        w = (i * 10 ** p + 2 ** 127) % 2 ** 128 - 2 ** 127
+                        if abs(w) <= MAX and abs(i) <= MAX:
+                            a = w + r.choice([0, 0, 0, 1, -1]); a = self.clamp(a)
+                            break
                 yield f"heven {r.choice(['ieq', 'icmp'])} {ty} {pos} vv {a} {p} {i}"
 
     # ---------------------------------------------------------------- C09
@@ -616,7 +635,7 @@ class G:
                 a = self.clamp(a) * r.choice([1, -1])
             else:
                 a, p = self.dec()
-            yield f"heven {op} {a} {p}"
+            yield f"{self.mode()} {op} {a} {p}"
 
     # ---------------------------------------------------------------- C13
     def float_binades(self):
@@ -732,6 +751,8 @@ class G:
         """public-operator requests whose wide-path floor quotient sits at ±(2^127 - 1), ±2^127 or next to them, with a remainder
         that the mode may round up (the increment overflows) or down"""
         r = self.r
+        if r.random() < 0.2:
+            return self.knuth_corner(raw=False)
         if r.random() < 0.15:
             # quotient at 2^128: the upper 128 bits of dividend·10^p equal the divisor exactly (or differ by one)
             pw = r.randrange(20, 37)
@@ -799,13 +820,53 @@ class G:
             return f"{self.mode()} {r.choice(['mul', 'cmul'])} vv {sx * x} {s1} {sy * y} {s2}"
         return f"{self.mode()} mulr vv {sx * x} {s1} {sy * y} {s2} {nn}"
 
+    def knuth_corner(self, raw=False):
+        """operands x, p, y whose 256-bit dividend x·10^p, divided by y >= 2^64, takes the first quotient-digit estimate of
+        Knuth's algorithm D through exactly one correction that lands the running remainder on 2^64 (the loop's exit test
+        `rhat >= B`): the normalised divisor's top digit is 2^64 - c, and the top 128 bits of the normalised dividend are
+        q1·yn1 + c.  Returned as the raw helper call (`kwsh`) or as a public `div_rounded` with matching scales."""
+        r = self.r
+        B = 2 ** 64
+        for _ in range(50):
+            s = r.randrange(3, 40)                              # normalisation shift of the divisor
+            c = r.randrange(1, 2 ** r.randrange(1, 20))
+            yn1 = B - c
+            yn0 = (r.randrange(2 ** 63, B) >> s) << s
+            y = ((yn1 << 64) | yn0) >> s
+            q1 = r.randrange(2 ** 40, 2 ** r.randrange(50, 60))
+            xn32 = q1 * yn1 + c
+            p = r.randrange(20, 37)
+            if 10 ** p > 2 ** (128 - s):
+                continue
+            hi = xn32 << (128 - s)
+            m = (-hi) % 10 ** p
+            k_max = (2 ** (128 - s) - 1 - m) // 10 ** p
+            m += r.randrange(0, k_max + 1) * 10 ** p
+            d = hi + m
+            x = d // 10 ** p
+            if x > MAX or y > MAX:
+                continue
+            sx, sy = r.choice([(1, 1), (1, 1), (-1, 1), (1, -1), (-1, -1)])
+            if raw:
+                return f"heven kwsh {sx * x} {p} {sy * y}"
+            # public form: Decimal(x, s1).div_rounded(Decimal(y, s2), n) shifts by n + s2 - s1 = p
+            nn = r.randrange(max(0, p - 18), 19)
+            s2 = r.randrange(max(0, p - nn), 19)
+            s1 = nn + s2 - p
+            if not (0 <= s1 <= 18):
+                continue
+            if nn == 18 and r.random() < 0.5:
+                return f"{self.mode()} {r.choice(['div', 'cdiv'])} vv {sx * x} {s1} {sy * y} {s2}"
+            return f"{self.mode()} divr vv {sx * x} {s1} {sy * y} {s2} {nn}"
+        return self.wide_boundary()
+
     def c16(self, n):
         r = self.r
         B = 2 ** 64
         for _ in range(n):
             k = r.randrange(13)
             if k == 12:
-                yield self.wide_boundary()
+                yield self.knuth_corner(raw=True) if r.random() < 0.4 else self.wide_boundary()
                 continue
             if k < 5:  # a·10^k / m through the doc-hidden helper
                 x = self.coeff(); kk = r.randrange(0, 39); y = abs(self.coeff()) or 1
@@ -923,7 +984,16 @@ class G:
         """a request (no mode token, tokens joined by `_`) whose result depends on the rounding mode in effect:
         every operation family that consults the thread's default mode, in each of its branches"""
         r = self.r
-        k = r.randrange(14)
+        k = r.randrange(15)
+        if k == 14:
+            # a product that needs the 256-bit path and is an exact multiple of 10^shift: no mode may change it
+            j1, j2 = r.randrange(10, 19), r.randrange(10, 19)
+            a1 = r.choice([1, 2, 3, 5, 7, 4]) * 10 ** r.randrange(19, 22) * r.choice([1, -1])
+            a2 = r.choice([1, 3, 5, 9]) * 10 ** r.randrange(18, 21) * r.choice([1, -1])
+            nn = r.randrange(max(0, j1 + j2 - 36), min(18, j1 + j2) + 1)
+            if r.random() < 0.5:
+                return f"mulr_vv_{a1}_{j1}_{a2}_{j2}_{nn}"
+            return f"{r.choice(['mul', 'cmul'])}_vv_{a1}_{j1}_{a2}_{j2}"
         if k >= 12:
             # the 256-bit paths of div_rounded / mul_rounded / `/` / `*` under the thread's mode
             if k == 12:
